@@ -150,7 +150,13 @@ PROPS.update({
         ),
         bounded_only=["canonical form of results", "Mark.set_from", "schema compilation of excludes/marks"],
     ),
-    "C05": _bounded("C05", "c05", "documents (incl. explicit None / structured attribute values), fragments, slices, marks and all eight step kinds through json.dumps/loads: equality, identical re-serialisation, same effect and map, no aliasing; registry names."),
+    "C05": _hybrid("C05", "c05", ["contracts.transform_json"],
+                   "the published JSON shape of all eight step classes: to_json returns exactly the documented keys (stepType name, positions, gap, insert; `slice` present exactly when the slice content is non-empty, `structure` exactly when set, independently of each other; "
+                   "attribute values deep-copied) with the step's own field values, and from_json applied to each of those record shapes (a real JSON encode / decode is the identity on such plain records: assumed) gives back the same integer / string / flag fields, "
+                   "Slice.empty for an absent slice.",
+                   "documents, fragments, slices, marks and steps through json.dumps / loads: equality, identical re-serialisation, same effect and map, no aliasing; registry names; compute_attrs and the Node / Mark / Slice JSON forms (dictionary-valued code outside the verifier's kinds).",
+                   assumptions=("A1", "A4", "A5", "A6", "A10", "Z3", "PYVC"), min_obligations=130,
+                   bounded_only=["Node / Fragment / Mark / Slice to_json / from_json", "compute_attrs (explicit None, defaults)", "equality of decoded marks and slices", "step registry", "JSON encode / decode identity on plain records (assumed)"]),
     "C06": _bounded("C06", "c06", "per content expression (all syntax trees to a size bound, random larger, malformed token strings) the compiled matcher is compared with an independent derivative automaton by a product construction: acceptance and liveness for ALL child sequences of that expression. No contract within reach expresses this for all expressions (nfa/dfa are closures over shared mutable lists)."),
     "C07": _hybrid("C07", "c07", ["contracts.model_content"],
                    "ContentMatch.match_type / match_fragment (== the automaton run), compatible, edge; Node.content_match_at, can_replace (== run over children[:from] + replacement[start:end] + children[to:] to a valid end, inserted marks allowed; raises exactly when the prefix does not match), "
